@@ -59,7 +59,7 @@ static void parse_spec(const char *spec)
 
 /* ---- header variants ---------------------------------------------------- */
 typedef struct { const char *json; int intended; } hvar_t;
-#define NHDR 50
+#define NHDR 64
 static hvar_t HV[NHDR];
 static char hv_store[15][16];
 static void init_hdr(void)
@@ -105,6 +105,22 @@ static void init_hdr(void)
 	HV[47] = (hvar_t){ "\"HS256\\u0000none\"", JWT_ALG_HS256 };
 	HV[48] = (hvar_t){ "\"RS256\\u0000\"", JWT_ALG_RS256 };
 	HV[49] = (hvar_t){ "\"ES256\\u0000K\"", JWT_ALG_ES256 };
+	/* names that follow the pattern of the registered ones but are not registered (a look-up that computes instead of comparing
+	 * must not map them to anything, least of all to 'none') */
+	HV[50] = (hvar_t){ "\"HS128\"", JWT_ALG_HS256 };
+	HV[51] = (hvar_t){ "\"HS0\"", JWT_ALG_HS256 };
+	HV[52] = (hvar_t){ "\"HS640\"", JWT_ALG_HS512 };
+	HV[53] = (hvar_t){ "\"RS128\"", JWT_ALG_RS256 };
+	HV[54] = (hvar_t){ "\"ES128\"", JWT_ALG_ES256 };
+	HV[55] = (hvar_t){ "\"PS128\"", JWT_ALG_PS256 };
+	HV[56] = (hvar_t){ "\"ES512K\"", JWT_ALG_ES512 };
+	HV[57] = (hvar_t){ "\"ES128K\"", JWT_ALG_ES256K };
+	HV[58] = (hvar_t){ "\"HS000\"", JWT_ALG_HS256 };
+	HV[59] = (hvar_t){ "\"EdDSA256\"", JWT_ALG_EDDSA };
+	HV[60] = (hvar_t){ "\"none0\"", JWT_ALG_NONE };
+	HV[61] = (hvar_t){ "\"HS-128\"", JWT_ALG_HS256 };
+	HV[62] = (hvar_t){ "\"HS768\"", JWT_ALG_HS512 };
+	HV[63] = (hvar_t){ "\"RS640\"", JWT_ALG_RS512 };
 }
 
 /* ---- keys ------------------------------------------------------------------ */
